@@ -41,6 +41,8 @@ def norm_fingerprint(fp):
     while prev != fp:
         prev = fp
         fp = _WRAP.sub(lambda m: m.group(2), fp)
+    # closures are numbered by position in their function: moving an unrelated closure out of (or into) it renumbers the rest
+    fp = re.sub(r"\{closure#\d+\}", "{closure}", fp)
     return fp
 
 
@@ -222,18 +224,33 @@ def assert_wrappers(prog):
             continue
         if b.local_ty(1) != "bool" or "Result<" not in b.local_ty(0):
             continue
+        # `cond.then_some(()).ok_or(err)` (also then(..) / ok_or_else): Ok exactly when cond
+        d0 = core.describe(prog, b, 0)
+        if isinstance(d0, tuple) and d0[0] == "call" and core.re.search(r"Option::<T>::ok_or(_else)?$", d0[1]) and d0[2]:
+            inner = d0[2][0]
+            if isinstance(inner, tuple) and inner[0] == "call" and core.re.search(r"bool::then(_some)?$", inner[1]) and inner[2] and inner[2][0] == ("param", 1, b.local_name(1)):
+                out.add(p)
+                continue
         oks = core.ok_return_blocks(b, "Ok")
         errs = core.ok_return_blocks(b, "Err")
         if not oks or not errs:
             continue
         good = True
+        par = ("param", 1, b.local_name(1))
+
+        def holds(gs, truth):
+            # the edge of a test of the parameter, or of the Option that `cond.then_some(..)` / `cond.then(..)` made of it
+            for s, lab, d, info in gs:
+                if lab == ("true" if truth else "false") and d == par:
+                    return True
+                if lab == ("Some" if truth else "None") and isinstance(d, tuple) and d[0] == "call" and core.re.search(r"bool::then(_some)?$|bool>::then(_some)?$|<impl bool>::then(_some)?$", d[1]) and d[2] and d[2][0] == par:
+                    return True
+            return False
         for ob in oks:
-            gs = core.guards_dominating(prog, b, ob)
-            if not any(lab == "true" and d == ("param", 1, b.local_name(1)) for s, lab, d, info in gs):
+            if not holds(core.guards_dominating(prog, b, ob), True):
                 good = False
         for eb in errs:
-            gs = core.guards_dominating(prog, b, eb)
-            if not any(lab == "false" and d == ("param", 1, b.local_name(1)) for s, lab, d, info in gs):
+            if not holds(core.guards_dominating(prog, b, eb), False):
                 good = False
         if good:
             out.add(p)
